@@ -710,8 +710,9 @@ def linspace(start, stop, num, decimals=18):
     if num > 1:
         div = num - 1
         delta = stop - start
+        # The last sample is the end of the interval itself: (div * delta) / div is not always delta in floating point arithmetic
         return [float(("{:." + str(decimals) + "f}").format((start + (float(x) * float(delta) / float(div)))))
-                for x in range(num)]
+                for x in range(div)] + [float(("{:." + str(decimals) + "f}").format(stop))]
     return [float(("{:." + str(decimals) + "f}").format(start))]
 
 
